@@ -13,7 +13,7 @@ def entryOK (p : Player) (e : Entry) : Prop :=
   match p.state with
   | .logining => e = .open (.auth (p.stTimeout - LoginTimeout)) ∧ LoginTimeout ≤ p.stTimeout
   | .logined => e = .open .inGame
-  | .switchLine => e = .open .inGame
+  | .switchLine => e = .open .inGame ∧ p.lock.held = true ∧ p.lock.reason = .switchLine
   | .logouting => e = .open (.out (p.stTimeout - LogoutTimeout)) ∧ LogoutTimeout ≤ p.stTimeout
   | .waitRemove => e = .lingering
 
@@ -30,6 +30,8 @@ structure RelI (a : Acct) (l : Ledger) : Prop where
   ans_le : ∀ x ∈ l.answered, x ≤ a.nextId
   ans_nodup : l.answered.Nodup
   task : ∀ t, a.task = some t → t.id ≤ a.nextId ∧ t.id ∉ l.answered
+  /-- every request issued so far has been answered, is the parked one, or was forgotten by the expiry scan -/
+  all : ∀ x, 1 ≤ x → x ≤ a.nextId → x ∈ l.answered ∨ (∃ t, a.task = some t ∧ t.id = x) ∨ x ∈ a.dropped
 
 structure Rel (a : Acct) (l : Ledger) : Prop where
   p : RelP a l
@@ -61,6 +63,12 @@ theorem closeTx_tx (l : Ledger) (lk : Lock) (r : Reason) (h : l.tx = txOf lk) :
   unfold closeTx
   cases hd <;> simp [Lock.unlock, txOf] at h ⊢ <;> simp [h]
   by_cases h' : r = rs <;> simp [h', eq_comm, h]
+
+/-- completing a transaction of another kind does not touch a line switch -/
+theorem entryOK_unlock (p : Player) (e : Entry) (r : Reason) (hr : r ≠ .switchLine) (h : entryOK p e) :
+    entryOK { p with lock := (p.lock.unlock r).1 } e := by
+  obtain ⟨fr, nt, lg, st, stt, ⟨lh, lr, lt⟩⟩ := p
+  cases st <;> simp_all [entryOK, Lock.unlock]
 
 theorem entryOK_ne_none {p : Player} {e : Entry} (h : entryOK p e) : e ≠ .none := by
   intro h0; rw [h0] at h; unfold entryOK at h; split at h <;> simp at h
@@ -120,13 +128,20 @@ theorem swBegin_relP (now u : Nat) (a : Acct) (l : Ledger) (h : RelP a l) :
     by_cases hst : p.state = .logined
     · simp only [hst, ne_eq, not_true_eq_false, ↓reduceIte]
       cases htl : p.lock.tryLock now .switchLine LockTimeout with
-      | none => simp [opStep, hne, RelP, hpl, he, hc, ht]
+      | none =>
+        rw [tryLock_none] at htl
+        simp [opStep, hne, RelP, hpl, he, hc, ht, held, htl]
       | some lk' =>
         rw [tryLock_some] at htl
         obtain ⟨hh, rfl⟩ := htl
         simp [hst, entryOK] at he
         simp [opStep, hne, held, ht, hh, RelP, entryOK, hc, he]
-    · simp [hst, opStep, hne, RelP, hpl, he, hc, ht]
+    · have hsw : l.entry = .open .inGame → inSwitchTx (txOf p.lock) = true := by
+        intro he2
+        obtain ⟨fr, nt, lg, st, stt, ⟨lh, lr, lt⟩⟩ := p
+        cases st <;> simp_all [entryOK, txOf, inSwitchTx]
+      simp [hst, opStep, hne, RelP, hpl, he, hc, ht]
+      intro he2 _; exact hsw he2
 
 theorem swEnd_relP (now u : Nat) (a : Acct) (l : Ledger) (h : RelP a l) :
     RelP (swEndOp a).1 (opStep now l (.swEnd u) (some (swEndOp a).2)).1 ∧
@@ -158,7 +173,7 @@ theorem reonline_relP (now u : Nat) (a : Acct) (l : Ledger) (h : RelP a l) :
     obtain ⟨he, hc, ht⟩ := h
     refine ⟨?_, by simp [opStep]⟩
     simp only [RelP, opStep, closeTx_entry, closeTx_closedRep]
-    exact ⟨he, hc, closeTx_tx l p.lock .reonline ht⟩
+    exact ⟨entryOK_unlock p _ .reonline (by decide) he, hc, closeTx_tx l p.lock .reonline ht⟩
 
 theorem logoutDone_relP (now u : Nat) (a : Acct) (l : Ledger) (h : RelP a l) :
     RelP (logoutDoneOp a).1 (opStep now l (.logoutDone u) none).1 ∧ (opStep now l (.logoutDone u) none).2 = [] := by
@@ -303,13 +318,13 @@ theorem ackStep_re (now : Nat) (l : Ledger) (id n : Nat) (lg : Option Bool) (h1 
       (⟨l.entry, decide (n = 0), some (.reonline, now + LockTimeout), id :: l.answered⟩, []) := by
   simp [ackStep, h1, h2, h2', held] at h3 ⊢; simp [held, h3]
 
-theorem ackStep_already (now : Nat) (l : Ledger) (id n : Nat) (h1 : id ∉ l.answered) :
+theorem ackStep_already (now : Nat) (l : Ledger) (id n : Nat) (h1 : id ∉ l.answered) (h2 : l.entry ≠ .none) :
     ackStep now l id n .already = ({ l with answered := id :: l.answered }, []) := by
-  simp [ackStep, h1]
+  simp [ackStep, h1, h2]
 
-theorem ackStep_busy (now : Nat) (l : Ledger) (id n : Nat) (h1 : id ∉ l.answered) :
+theorem ackStep_busy (now : Nat) (l : Ledger) (id n : Nat) (h1 : id ∉ l.answered) (h2 : l.entry ≠ .none) :
     ackStep now l id n .busy = ({ l with answered := id :: l.answered }, []) := by
-  simp [ackStep, h1]
+  simp [ackStep, h1, h2]
 
 theorem relP_answered {a : Acct} {l : Ledger} (xs : List Nat) (h : RelP a l) : RelP a { l with answered := xs } := by
   unfold RelP at h ⊢; exact h
@@ -339,13 +354,14 @@ theorem reqLogin_sim (now : Nat) (a : Acct) (l : Ledger) (id f n : Nat) (k : Boo
   | some p =>
     simp only [hpl] at h ⊢
     obtain ⟨he, hc, ht⟩ := h
+    have hne := entryOK_ne_none he
     by_cases hnet : p.net = 0
     · simp only [hnet, ↓reduceIte]
       by_cases hst : p.state = .logined
       · simp only [hst, ↓reduceIte, doReconnect]
         cases htl : p.lock.tryLock now .reonline LockTimeout with
         | none =>
-          simp [evsStep_ack, ackStep_busy now l id n hid]
+          simp [evsStep_ack, ackStep_busy now l id n hid hne]
           exact relP_answered _ h0
         | some lk' =>
           rw [tryLock_some] at htl
@@ -354,7 +370,7 @@ theorem reqLogin_sim (now : Nat) (a : Acct) (l : Ledger) (id f n : Nat) (k : Boo
           have hc' : l.closedRep = true := by simp [hc, hnet]
           have hh' : held l now = false := by simp [held, ht, hh]
           simp [evsStep_ack, ackStep_re now l id n p.logic hid he' hc' hh', RelP, entryOK, hst, he']
-      · simp [hst, evsStep_ack, ackStep_already now l id n hid]
+      · simp [hst, evsStep_ack, ackStep_already now l id n hid hne]
         exact relP_answered _ h0
     · simp only [hnet, ↓reduceIte]
       by_cases hst : p.state = .logined
@@ -364,14 +380,21 @@ theorem reqLogin_sim (now : Nat) (a : Acct) (l : Ledger) (id f n : Nat) (k : Boo
           cases k <;> simp [relP_congr _ h0, RelP, hpl, he, hc, ht]
         | some t =>
           have := htk t htask
-          cases k <;> simp [evsStep_ack, ackStep_busy now l t.id t.net this, RelP, hpl, he, hc, ht]
-      · cases k <;> simp [hst, evsStep_ack, evsStep_append, ackStep_already now l id n hid] <;> exact relP_answered _ h0
+          cases k <;> simp [evsStep_ack, ackStep_busy now l t.id t.net this hne, RelP, hpl, he, hc, ht]
+      · cases k <;> simp [hst, evsStep_ack, evsStep_append, ackStep_already now l id n hid hne] <;> exact relP_answered _ h0
+
+theorem reqLogin_dropped (now : Nat) (a : Acct) (id f n : Nat) (k : Bool) :
+    (reqLogin now a id f n k).1.dropped = a.dropped := by
+  unfold reqLogin doReconnect addTask
+  repeat' split
+  all_goals rfl
 
 /-- the `login` entry point keeps the whole relation and raises nothing -/
 theorem login_rel (now : Nat) (a : Acct) (l : Ledger) (f n : Nat) (k : Bool) (h : Rel a l) :
     Rel (loginOp now a f n k).1 (evsStep now l (loginOp now a f n k).2).1 ∧
     (evsStep now l (loginOp now a f n k).2).2 = [] := by
-  obtain ⟨hp, hle, hnd, htk⟩ := h
+  obtain ⟨hp, hle, hnd, htk, hall⟩ := h
+  have hdr := reqLogin_dropped now { a with nextId := a.nextId + 1 } (a.nextId + 1) f n k
   have hid : a.nextId + 1 ∉ l.answered := fun hm => by have := hle _ hm; omega
   have hp' : RelP { a with nextId := a.nextId + 1 } l := relP_congr rfl hp
   have htk' : ∀ t, ({ a with nextId := a.nextId + 1 } : Acct).task = some t → t.id ∉ l.answered :=
@@ -380,7 +403,7 @@ theorem login_rel (now : Nat) (a : Acct) (l : Ledger) (f n : Nat) (k : Bool) (h 
   unfold loginOp
   refine ⟨⟨r1, ?_⟩, r2⟩
   rcases r4 with ⟨e1, e2⟩ | ⟨e1, e0, e2⟩ | ⟨t, e0, e1, e2⟩
-  · refine ⟨?_, ?_, ?_⟩
+  · refine ⟨?_, ?_, ?_, ?_⟩
     · intro x hx; rw [e2] at hx; rw [r3]; simp at hx ⊢
       rcases hx with rfl | hx
       · omega
@@ -390,12 +413,29 @@ theorem login_rel (now : Nat) (a : Acct) (l : Ledger) (f n : Nat) (k : Bool) (h 
       obtain ⟨h1, h2⟩ := htk t ht
       refine ⟨by show t.id ≤ a.nextId + 1; omega, ?_⟩
       simp only [List.mem_cons, not_or]; exact ⟨by omega, h2⟩
-  · refine ⟨?_, ?_, ?_⟩
+    · intro x h1 h2; rw [r3] at h2; rw [e2, e1, hdr]
+      by_cases hx : x = a.nextId + 1
+      · exact .inl (by simp [hx])
+      · have h2' : x ≤ a.nextId := by simp only [] at h2; omega
+        rcases hall x h1 h2' with h | h | h
+        · exact .inl (by simp [h])
+        · exact .inr (.inl h)
+        · exact .inr (.inr h)
+  · refine ⟨?_, ?_, ?_, ?_⟩
     · intro x hx; rw [e2] at hx; rw [r3]; have := hle _ hx; simp only []; omega
     · rw [e2]; exact hnd
     · intro t ht; rw [e1] at ht; cases ht; rw [e2, r3]; simp; exact hid
+    · intro x h1 h2; rw [r3] at h2; rw [e2, e1, hdr]
+      by_cases hx : x = a.nextId + 1
+      · exact .inr (.inl ⟨_, rfl, hx.symm⟩)
+      · have h2' : x ≤ a.nextId := by simp only [] at h2; omega
+        rcases hall x h1 h2' with h | ⟨t, ht, _⟩ | h
+        · exact .inl h
+        · have e0' : a.task = none := e0
+          rw [e0'] at ht; cases ht
+        · exact .inr (.inr h)
   · have ht0 := htk t e0
-    refine ⟨?_, ?_, ?_⟩
+    refine ⟨?_, ?_, ?_, ?_⟩
     · intro x hx; rw [e2] at hx; rw [r3]; simp at hx ⊢
       rcases hx with rfl | hx
       · omega
@@ -403,6 +443,15 @@ theorem login_rel (now : Nat) (a : Acct) (l : Ledger) (f n : Nat) (k : Bool) (h 
     · rw [e2]; exact List.nodup_cons.mpr ⟨ht0.2, hnd⟩
     · intro t' ht; rw [e1] at ht; cases ht; rw [e2, r3]; simp
       exact ⟨by omega, hid⟩
+    · intro x h1 h2; rw [r3] at h2; rw [e2, e1, hdr]
+      by_cases hx : x = a.nextId + 1
+      · exact .inr (.inl ⟨_, rfl, hx.symm⟩)
+      · have h2' : x ≤ a.nextId := by simp only [] at h2; omega
+        rcases hall x h1 h2' with h | ⟨t', ht', hx'⟩ | h
+        · exact .inl (by simp [h])
+        · have e0' : a.task = some t := e0
+          rw [e0'] at ht'; cases ht'; exact .inl (by simp [hx'])
+        · exact .inr (.inr h)
 
 theorem relP_noTask {a : Acct} {l : Ledger} (h : RelP a l) : RelP { a with task := none } l := relP_congr rfl h
 
@@ -413,7 +462,8 @@ theorem runTask_rel (now : Nat) (a : Acct) (l : Ledger) (h : Rel a l) :
   cases htask : a.task with
   | none => simpa using h
   | some t =>
-    obtain ⟨hp, hle, hnd, htk⟩ := h
+    obtain ⟨hp, hle, hnd, htk, hall⟩ := h
+    have hdr := reqLogin_dropped now a t.id t.front t.net false
     have ht0 := htk t htask
     have htk' : ∀ t', a.task = some t' → t'.id ∉ l.answered := fun t' ht => (htk t' ht).2
     obtain ⟨r1, r2, r3, r4⟩ := reqLogin_sim now a l t.id t.front t.net false hp ht0.2 htk'
@@ -424,29 +474,41 @@ theorem runTask_rel (now : Nat) (a : Acct) (l : Ledger) (h : Rel a l) :
       · exact e2
       · rw [htask] at e0; cases e0
       · rw [htask] at e0; cases e0; exact e2
-    refine ⟨?_, ?_, ?_⟩
+    refine ⟨?_, ?_, ?_, ?_⟩
     · intro x hx; rw [hans] at hx; simp at hx ⊢; rw [r3]
       rcases hx with rfl | hx
       · exact ht0.1
       · exact hle _ hx
     · rw [hans]; exact List.nodup_cons.mpr ⟨ht0.2, hnd⟩
     · intro t' ht; simp at ht
+    · intro x h1 h2; simp only [] at h2 ⊢; rw [r3] at h2; rw [hans, hdr]
+      rcases hall x h1 h2 with h | ⟨t', ht', hx'⟩ | h
+      · exact .inl (by simp [h])
+      · rw [htask] at ht'; cases ht'; exact .inl (by simp [hx'])
+      · exact .inr (.inr h)
 
 /-- `tryRemoveExpired` forgetting a parked login -/
 theorem dropExpired_rel (now : Nat) (a : Acct) (l : Ledger) (h : Rel a l) : Rel (dropExpired now a) l := by
   unfold dropExpired
   split
   · split
-    · exact ⟨relP_congr rfl h.p, ⟨h.i.ans_le, h.i.ans_nodup, by intro t ht; simp at ht⟩⟩
+    · rename_i t ht _
+      refine ⟨relP_congr rfl h.p, ⟨h.i.ans_le, h.i.ans_nodup, by intro t ht; simp at ht, ?_⟩⟩
+      intro x h1 h2
+      rcases h.i.all x h1 h2 with hx | ⟨t', ht', hx⟩ | hx
+      · exact .inl hx
+      · rw [ht] at ht'; cases ht'; exact .inr (.inr (by simp [hx]))
+      · exact .inr (.inr (by simp [hx]))
     · exact h
   · exact h
 
 /-! ### operations without acknowledgements keep the request bookkeeping -/
 
 theorem relI_congr {a a' : Acct} {l l' : Ledger} (h1 : a'.task = a.task) (h2 : a'.nextId = a.nextId)
-    (h3 : l'.answered = l.answered) (h : RelI a l) : RelI a' l' := by
-  obtain ⟨hle, hnd, htk⟩ := h
-  exact ⟨by rw [h3, h2]; exact hle, by rw [h3]; exact hnd, by rw [h1, h2, h3]; exact htk⟩
+    (h4 : a'.dropped = a.dropped) (h3 : l'.answered = l.answered) (h : RelI a l) : RelI a' l' := by
+  obtain ⟨hle, hnd, htk, hall⟩ := h
+  exact ⟨by rw [h3, h2]; exact hle, by rw [h3]; exact hnd, by rw [h1, h2, h3]; exact htk,
+    by rw [h1, h2, h3, h4]; exact hall⟩
 
 theorem opStep_answered (now : Nat) (l : Ledger) (op : Op) (ret : Option Bool) :
     (opStep now l op ret).1.answered = l.answered := by
@@ -455,56 +517,62 @@ theorem opStep_answered (now : Nat) (l : Ledger) (op : Op) (ret : Option Bool) :
 theorem tickLedger_answered (now : Nat) (l : Ledger) : (tickLedger now l).answered = l.answered := by
   unfold tickLedger; simp only []; split <;> (try split) <;> rfl
 
-theorem sendOffline_ti (now : Nat) (a : Acct) (lg : Option Bool) :
-    (sendOffline now a lg).1.task = a.task ∧ (sendOffline now a lg).1.nextId = a.nextId :=
-  ⟨sendOffline_task .., sendOffline_nextId ..⟩
+theorem ticksLedger_answered (ts : List Nat) (l : Ledger) :
+    (ts.foldl (fun l t => tickLedger t l) l).answered = l.answered := by
+  induction ts generalizing l with
+  | nil => rfl
+  | cons t ts ih => simp only [List.foldl_cons]; rw [ih]; exact tickLedger_answered ..
 
-theorem closedOp_ti (now : Nat) (a : Acct) : (closedOp now a).1.task = a.task ∧ (closedOp now a).1.nextId = a.nextId := by
+theorem sendOffline_ti (now : Nat) (a : Acct) (lg : Option Bool) :
+    (sendOffline now a lg).1.task = a.task ∧ (sendOffline now a lg).1.nextId = a.nextId ∧ (sendOffline now a lg).1.dropped = a.dropped :=
+  ⟨sendOffline_task .., sendOffline_nextId .., by unfold sendOffline; split <;> rfl⟩
+
+theorem closedOp_ti (now : Nat) (a : Acct) : (closedOp now a).1.task = a.task ∧ (closedOp now a).1.nextId = a.nextId ∧ (closedOp now a).1.dropped = a.dropped := by
   unfold closedOp; split
-  · exact ⟨rfl, rfl⟩
+  · exact ⟨rfl, rfl, rfl⟩
   · simp only []; split
     · exact sendOffline_ti ..
-    · exact ⟨rfl, rfl⟩
+    · exact ⟨rfl, rfl, rfl⟩
 theorem loginedOp_ti (now : Nat) (a : Acct) (lg : Bool) :
-    (loginedOp now a lg).1.task = a.task ∧ (loginedOp now a lg).1.nextId = a.nextId := by
+    (loginedOp now a lg).1.task = a.task ∧ (loginedOp now a lg).1.nextId = a.nextId ∧ (loginedOp now a lg).1.dropped = a.dropped := by
   unfold loginedOp; split
-  · exact ⟨rfl, rfl⟩
+  · exact ⟨rfl, rfl, rfl⟩
   · simp only []; split
     · exact sendOffline_ti ..
-    · exact ⟨rfl, rfl⟩
-theorem reonlineOp_ti (a : Acct) : (reonlineOp a).task = a.task ∧ (reonlineOp a).nextId = a.nextId := by
-  unfold reonlineOp; split <;> exact ⟨rfl, rfl⟩
+    · exact ⟨rfl, rfl, rfl⟩
+theorem reonlineOp_ti (a : Acct) : (reonlineOp a).task = a.task ∧ (reonlineOp a).nextId = a.nextId ∧ (reonlineOp a).dropped = a.dropped := by
+  unfold reonlineOp; split <;> exact ⟨rfl, rfl, rfl⟩
 theorem logoutReqOp_ti (now : Nat) (a : Acct) :
-    (logoutReqOp now a).1.task = a.task ∧ (logoutReqOp now a).1.nextId = a.nextId := by
+    (logoutReqOp now a).1.task = a.task ∧ (logoutReqOp now a).1.nextId = a.nextId ∧ (logoutReqOp now a).1.dropped = a.dropped := by
   unfold logoutReqOp; split
-  · exact ⟨rfl, rfl⟩
-  · split <;> exact ⟨rfl, rfl⟩
-theorem logoutDoneOp_ti (a : Acct) : (logoutDoneOp a).1.task = a.task ∧ (logoutDoneOp a).1.nextId = a.nextId := by
-  unfold logoutDoneOp; split <;> exact ⟨rfl, rfl⟩
-theorem abnormalOp_ti (a : Acct) : (abnormalOp a).1.task = a.task ∧ (abnormalOp a).1.nextId = a.nextId := by
-  unfold abnormalOp; split <;> exact ⟨rfl, rfl⟩
+  · exact ⟨rfl, rfl, rfl⟩
+  · split <;> exact ⟨rfl, rfl, rfl⟩
+theorem logoutDoneOp_ti (a : Acct) : (logoutDoneOp a).1.task = a.task ∧ (logoutDoneOp a).1.nextId = a.nextId ∧ (logoutDoneOp a).1.dropped = a.dropped := by
+  unfold logoutDoneOp; split <;> exact ⟨rfl, rfl, rfl⟩
+theorem abnormalOp_ti (a : Acct) : (abnormalOp a).1.task = a.task ∧ (abnormalOp a).1.nextId = a.nextId ∧ (abnormalOp a).1.dropped = a.dropped := by
+  unfold abnormalOp; split <;> exact ⟨rfl, rfl, rfl⟩
 theorem swBeginOp_ti (now : Nat) (a : Acct) :
-    (swBeginOp now a).1.task = a.task ∧ (swBeginOp now a).1.nextId = a.nextId := by
+    (swBeginOp now a).1.task = a.task ∧ (swBeginOp now a).1.nextId = a.nextId ∧ (swBeginOp now a).1.dropped = a.dropped := by
   unfold swBeginOp; split
-  · exact ⟨rfl, rfl⟩
+  · exact ⟨rfl, rfl, rfl⟩
   · split
-    · exact ⟨rfl, rfl⟩
-    · split <;> exact ⟨rfl, rfl⟩
-theorem swEndOp_ti (a : Acct) : (swEndOp a).1.task = a.task ∧ (swEndOp a).1.nextId = a.nextId := by
+    · exact ⟨rfl, rfl, rfl⟩
+    · split <;> exact ⟨rfl, rfl, rfl⟩
+theorem swEndOp_ti (a : Acct) : (swEndOp a).1.task = a.task ∧ (swEndOp a).1.nextId = a.nextId ∧ (swEndOp a).1.dropped = a.dropped := by
   unfold swEndOp; split
-  · exact ⟨rfl, rfl⟩
+  · exact ⟨rfl, rfl, rfl⟩
   · split
-    · exact ⟨rfl, rfl⟩
-    · simp only []; split <;> exact ⟨rfl, rfl⟩
-theorem tickAcct_ti (now : Nat) (a : Acct) : (tickAcct now a).task = a.task ∧ (tickAcct now a).nextId = a.nextId := by
+    · exact ⟨rfl, rfl, rfl⟩
+    · simp only []; split <;> exact ⟨rfl, rfl, rfl⟩
+theorem tickAcct_ti (now : Nat) (a : Acct) : (tickAcct now a).task = a.task ∧ (tickAcct now a).nextId = a.nextId ∧ (tickAcct now a).dropped = a.dropped := by
   unfold tickAcct; split
-  · exact ⟨rfl, rfl⟩
-  · simp only []; constructor <;> (repeat' split) <;> rfl
+  · exact ⟨rfl, rfl, rfl⟩
+  · simp only []; refine ⟨?_, ?_, ?_⟩ <;> (repeat' split) <;> rfl
 
 theorem noack_rel {a a' : Acct} {l : Ledger} (now : Nat) (op : Op) (ret : Option Bool) (h : Rel a l)
-    (hp : RelP a' (opStep now l op ret).1) (hti : a'.task = a.task ∧ a'.nextId = a.nextId) :
+    (hp : RelP a' (opStep now l op ret).1) (hti : a'.task = a.task ∧ a'.nextId = a.nextId ∧ a'.dropped = a.dropped) :
     Rel a' (opStep now l op ret).1 :=
-  ⟨hp, relI_congr hti.1 hti.2 (opStep_answered ..) h.i⟩
+  ⟨hp, relI_congr hti.1 hti.2.1 hti.2.2 (opStep_answered ..) h.i⟩
 
 /-! ### the global simulation -/
 
@@ -565,6 +633,17 @@ theorem fire_sim {s : State} {m : Mon} (u : Nat) (pick : Option Nat) (evs : List
     simp only [↓reduceIte, evsStep_append, hev, List.nil_append]
     have := kwClose_sim u pick h
     exact ⟨this.1, this.2, by trivial⟩
+
+/-- a run of timer firings keeps the relation -/
+theorem ticks_rel (ts : List Nat) : ∀ (a : Acct) (l : Ledger), Rel a l →
+    Rel (ts.foldl (fun a t => tickAcct t a) a) (ts.foldl (fun l t => tickLedger t l) l) := by
+  induction ts with
+  | nil => intro a l h; exact h
+  | cons t ts ih =>
+    intro a l h
+    simp only [List.foldl_cons]
+    exact ih _ _ ⟨tick_relP t _ _ h.p,
+      relI_congr (tickAcct_ti ..).1 (tickAcct_ti ..).2.1 (tickAcct_ti ..).2.2 (tickLedger_answered ..) h.i⟩
 
 /-- **one step**: whatever the operation, the model's output is accepted by the monitor without any
 violation, and model state and monitor state stay related -/
@@ -648,7 +727,7 @@ theorem step_sim (s : State) (m : Mon) (op : Op) (h : GRel s m) :
       · simpa [upd_other _ _ _ _ hx] using hr x
     | cons t rest =>
       have hrel : Rel { ac u with pend := rest } (m.led u) :=
-        ⟨relP_congr rfl (hr u).p, relI_congr (a := ac u) rfl rfl rfl (hr u).i⟩
+        ⟨relP_congr rfl (hr u).p, relI_congr (a := ac u) rfl rfl rfl rfl (hr u).i⟩
       have hf := fire_sim u pick [] true (grel_upd (u := u) h hrel) (fun l => rfl)
       simp only [monStep, Op.uid, acctStep, opStep, hf.2.2, List.nil_append]
       simp only [upd_same] at hf
@@ -658,17 +737,21 @@ theorem step_sim (s : State) (m : Mon) (op : Op) (h : GRel s m) :
   | tick =>
     simp only [step, monStep]
     refine ⟨⟨rfl, fun x => ?_⟩, by trivial⟩
-    exact ⟨tick_relP m.now _ _ (hr x).p, relI_congr (tickAcct_ti ..).1 (tickAcct_ti ..).2 (tickLedger_answered ..) (hr x).i⟩
+    exact ⟨tick_relP m.now _ _ (hr x).p, relI_congr (tickAcct_ti ..).1 (tickAcct_ti ..).2.1 (tickAcct_ti ..).2.2 (tickLedger_answered ..) (hr x).i⟩
   | adv ms =>
     simp only [step, monStep]
     exact ⟨⟨rfl, hr⟩, by trivial⟩
+  | advT ms =>
+    simp only [step, monStep]
+    exact ⟨⟨rfl, fun x => ticks_rel _ _ _ (hr x)⟩, by trivial⟩
 
 theorem init_grel : GRel {} {} := by
-  refine ⟨rfl, fun u => ⟨?_, ⟨?_, ?_, ?_⟩⟩⟩
+  refine ⟨rfl, fun u => ⟨?_, ⟨?_, ?_, ?_, ?_⟩⟩⟩
   · simp [RelP]
   · intro x hx; simp at hx
   · simp
   · intro t ht; simp at ht
+  · intro x h1 h2; simp at h2; omega
 
 /-- **every history**: from related states, the monitor accepts the model's whole trace and the
 final states are related again -/
@@ -682,6 +765,322 @@ theorem runFrom_sim (ops : List Op) : ∀ (s : State) (m : Mon), GRel s m →
     obtain ⟨h3, h4⟩ := ih _ _ h1
     simp only [runFrom, monRun]
     exact ⟨h3, by rw [h2, h4]; rfl⟩
+
+/-! ### an account parked in a line switch stays there until something ends the switch
+(review finding 2: `SetState(SwitchLine, 0)` has no state time limit) -/
+
+/-- the account's record is in state `SwitchLine` -/
+def InSwitch (a : Acct) : Prop := ∃ p, a.player = some p ∧ p.state = .switchLine
+
+/-- the only operations that take account `u` out of a line switch -/
+def Op.endsSwitch (u : Nat) : Op → Bool
+  | .swEnd v | .logoutReq v | .logoutDone v | .abnormal v => v == u
+  | .logined v _ _ => v == u
+  | _ => false
+
+theorem reqLogin_inSwitch (now : Nat) (a : Acct) (id f n : Nat) (k : Bool) (h : InSwitch a) :
+    (reqLogin now a id f n k).1 = a ∧
+    ∀ e ∈ (reqLogin now a id f n k).2, e = .ack id n .already ∨ ∃ f' n', e = .kick f' n' := by
+  obtain ⟨p, hp, hst⟩ := h
+  unfold reqLogin
+  simp only [hp, hst]
+  by_cases hn : p.net = 0 <;> cases k <;> simp [hn]
+
+theorem reqLogin_inSwitch_acks (now : Nat) (a : Acct) (id f n : Nat) (k : Bool) (h : InSwitch a) :
+    Ev.ack id n .already ∈ (reqLogin now a id f n k).2 := by
+  obtain ⟨p, hp, hst⟩ := h
+  unfold reqLogin
+  simp only [hp, hst]
+  by_cases hn : p.net = 0 <;> cases k <;> simp [hn]
+
+theorem inSwitch_congr {a a' : Acct} (h : a'.player = a.player) : InSwitch a → InSwitch a' := by
+  unfold InSwitch; rw [h]; exact id
+
+theorem loginOp_inSwitch (now : Nat) (a : Acct) (f n : Nat) (k : Bool) (h : InSwitch a) :
+    InSwitch (loginOp now a f n k).1 := by
+  unfold loginOp
+  have h' : InSwitch { a with nextId := a.nextId + 1 } := inSwitch_congr rfl h
+  rw [(reqLogin_inSwitch now _ (a.nextId + 1) f n k h').1]; exact h'
+
+theorem runTask_inSwitch (now : Nat) (a : Acct) (h : InSwitch a) : InSwitch (runTask now a).1 := by
+  unfold runTask
+  split
+  · exact h
+  · rename_i t _
+    simp only []
+    rw [(reqLogin_inSwitch now a t.id t.front t.net false h).1]; exact inSwitch_congr rfl h
+
+theorem dropExpired_player (now : Nat) (a : Acct) : (dropExpired now a).player = a.player := by
+  unfold dropExpired; split
+  · split <;> rfl
+  · rfl
+
+theorem scan_inSwitch (s : State) (pick : Option Nat) (x : Nat) (h : InSwitch (s.accts x)) :
+    InSwitch ((scan s pick).accts x) := by
+  unfold scan
+  split
+  · exact h
+  · cases pick with
+    | none => exact h
+    | some v =>
+      simp only []
+      by_cases hx : x = v
+      · subst hx; simp only [upd_same]; exact inSwitch_congr (dropExpired_player ..) h
+      · rw [upd_other _ _ _ _ hx]; exact h
+
+theorem kwClose_inSwitch (s : State) (v : Nat) (pick : Option Nat) (x : Nat) (h : InSwitch (s.accts x)) :
+    InSwitch ((kwClose s v pick).1.accts x) := by
+  have h1 := scan_inSwitch s pick x h
+  unfold kwClose
+  simp only []
+  by_cases hx : x = v
+  · subst hx; simp only [upd_same]; exact runTask_inSwitch _ _ h1
+  · rw [upd_other _ _ _ _ hx]; exact h1
+
+theorem fire_inSwitch (s : State) (v : Nat) (pick : Option Nat) (evs : List Ev) (b : Bool) (x : Nat)
+    (h : InSwitch (s.accts x)) : InSwitch ((fire s v pick evs b).1.accts x) := by
+  unfold fire
+  cases b
+  · exact h
+  · exact kwClose_inSwitch s v pick x h
+
+theorem setAcct_inSwitch (s : State) (v x : Nat) (a : Acct) (h : InSwitch (s.accts x))
+    (ha : x = v → InSwitch a) : InSwitch ((setAcct s v a).accts x) := by
+  unfold setAcct
+  simp only []
+  by_cases hx : x = v
+  · subst hx; simp only [upd_same]; exact ha rfl
+  · rw [upd_other _ _ _ _ hx]; exact h
+
+theorem closedOp_inSwitch (now : Nat) (a : Acct) (h : InSwitch a) : InSwitch (closedOp now a).1 := by
+  obtain ⟨p, hp, hst⟩ := h
+  unfold closedOp
+  simp only [hp, hst]
+  exact ⟨_, rfl, rfl⟩
+
+theorem reonlineOp_inSwitch (a : Acct) (h : InSwitch a) : InSwitch (reonlineOp a) := by
+  obtain ⟨p, hp, hst⟩ := h
+  unfold reonlineOp
+  simp only [hp]
+  exact ⟨_, rfl, hst⟩
+
+theorem swBeginOp_inSwitch (now : Nat) (a : Acct) (h : InSwitch a) :
+    (swBeginOp now a).1 = a ∧ (swBeginOp now a).2 = false := by
+  obtain ⟨p, hp, hst⟩ := h
+  unfold swBeginOp
+  simp [hp, hst]
+
+theorem tickAcct_inSwitch (now : Nat) (a : Acct) (h : InSwitch a) : tickAcct now a = a := by
+  obtain ⟨p, hp, hst⟩ := h
+  unfold tickAcct
+  simp [hp, hst]
+
+theorem ticks_inSwitch (ts : List Nat) (a : Acct) (h : InSwitch a) : ts.foldl (fun a t => tickAcct t a) a = a := by
+  induction ts with
+  | nil => rfl
+  | cons t ts ih => simp only [List.foldl_cons]; rw [tickAcct_inSwitch _ _ h]; exact ih
+
+/-- **one step**: an operation that does not end the switch of account `u` leaves it in the switch -/
+theorem step_inSwitch (s : State) (op : Op) (u : Nat) (hop : op.endsSwitch u = false)
+    (h : InSwitch (s.accts u)) : InSwitch ((step s op).1.accts u) := by
+  cases op with
+  | login v f n k =>
+    exact setAcct_inSwitch s v u _ h (fun e => by subst e; exact loginOp_inSwitch _ _ _ _ _ h)
+  | closed v pick =>
+    exact fire_inSwitch _ v pick _ _ u
+      (setAcct_inSwitch s v u _ h (fun e => by subst e; exact closedOp_inSwitch _ _ h))
+  | logined v lg pick =>
+    have hv : u ≠ v := by
+      intro e; subst e; simp [Op.endsSwitch] at hop
+    exact fire_inSwitch _ v pick _ _ u (setAcct_inSwitch s v u _ h (fun e => absurd e hv))
+  | reonline v =>
+    exact setAcct_inSwitch s v u _ h (fun e => by subst e; exact reonlineOp_inSwitch _ h)
+  | logoutReq v =>
+    have hv : u ≠ v := by intro e; subst e; simp [Op.endsSwitch] at hop
+    exact setAcct_inSwitch s v u _ h (fun e => absurd e hv)
+  | logoutDone v =>
+    have hv : u ≠ v := by intro e; subst e; simp [Op.endsSwitch] at hop
+    exact setAcct_inSwitch s v u _ h (fun e => absurd e hv)
+  | abnormal v =>
+    have hv : u ≠ v := by intro e; subst e; simp [Op.endsSwitch] at hop
+    exact setAcct_inSwitch s v u _ h (fun e => absurd e hv)
+  | swBegin v =>
+    exact setAcct_inSwitch s v u _ h (fun e => by subst e; rw [(swBeginOp_inSwitch _ _ h).1]; exact h)
+  | swEnd v =>
+    have hv : u ≠ v := by intro e; subst e; simp [Op.endsSwitch] at hop
+    exact setAcct_inSwitch s v u _ h (fun e => absurd e hv)
+  | offReply v pick =>
+    simp only [step]
+    split
+    · exact h
+    · exact fire_inSwitch _ v pick _ _ u
+        (setAcct_inSwitch s v u _ h (fun e => by subst e; exact inSwitch_congr rfl h))
+  | tick =>
+    simp only [step]
+    rw [tickAcct_inSwitch _ _ h]; exact h
+  | adv ms => exact h
+  | advT ms =>
+    simp only [step]
+    rw [ticks_inSwitch _ _ h]; exact h
+
+theorem runFrom_inSwitch (ops : List Op) (u : Nat) (hops : ∀ op ∈ ops, op.endsSwitch u = false) :
+    ∀ s : State, InSwitch (s.accts u) → InSwitch ((runFrom s ops).1.accts u) := by
+  induction ops with
+  | nil => intro s h; exact h
+  | cons op ops ih =>
+    intro s h
+    simp only [runFrom]
+    exact ih (fun o ho => hops o (List.mem_cons_of_mem _ ho)) _
+      (step_inSwitch s op u (hops op (List.mem_cons_self ..)) h)
+
+theorem runFrom_append (xs ys : List Op) (s : State) :
+    (runFrom s (xs ++ ys)).1 = (runFrom (runFrom s xs).1 ys).1 := by
+  induction xs generalizing s with
+  | nil => rfl
+  | cons x xs ih => simp only [List.cons_append, runFrom]; exact ih _
+
+/-! ### request ids: one per login operation -/
+
+def stepIssues (u : Nat) : Op → Nat
+  | .login v .. => if v = u then 1 else 0
+  | _ => 0
+
+theorem reqLogin_nextId (now : Nat) (a : Acct) (id f n : Nat) (k : Bool) :
+    (reqLogin now a id f n k).1.nextId = a.nextId := by
+  unfold reqLogin doReconnect addTask
+  repeat' split
+  all_goals rfl
+
+theorem runTask_nextId (now : Nat) (a : Acct) : (runTask now a).1.nextId = a.nextId := by
+  unfold runTask; split
+  · rfl
+  · simp only []; exact reqLogin_nextId ..
+
+theorem dropExpired_nextId (now : Nat) (a : Acct) : (dropExpired now a).nextId = a.nextId := by
+  unfold dropExpired; split
+  · split <;> rfl
+  · rfl
+
+theorem scan_nextId (s : State) (pick : Option Nat) (x : Nat) : ((scan s pick).accts x).nextId = (s.accts x).nextId := by
+  unfold scan
+  split
+  · rfl
+  · cases pick with
+    | none => rfl
+    | some v =>
+      simp only []
+      by_cases hx : x = v
+      · subst hx; simp only [upd_same]; exact dropExpired_nextId ..
+      · rw [upd_other _ _ _ _ hx]
+
+theorem kwClose_nextId (s : State) (v : Nat) (pick : Option Nat) (x : Nat) :
+    ((kwClose s v pick).1.accts x).nextId = (s.accts x).nextId := by
+  unfold kwClose
+  simp only []
+  by_cases hx : x = v
+  · subst hx; simp only [upd_same]; rw [runTask_nextId]; exact scan_nextId ..
+  · rw [upd_other _ _ _ _ hx]; exact scan_nextId ..
+
+theorem fire_nextId (s : State) (v : Nat) (pick : Option Nat) (evs : List Ev) (b : Bool) (x : Nat) :
+    ((fire s v pick evs b).1.accts x).nextId = (s.accts x).nextId := by
+  unfold fire
+  cases b
+  · rfl
+  · exact kwClose_nextId ..
+
+theorem setAcct_nextId (s : State) (v x : Nat) (a : Acct) (ha : a.nextId = (s.accts v).nextId) :
+    ((setAcct s v a).accts x).nextId = (s.accts x).nextId := by
+  unfold setAcct
+  simp only []
+  by_cases hx : x = v
+  · subst hx; simp only [upd_same]; exact ha
+  · rw [upd_other _ _ _ _ hx]
+
+/-- a step issues exactly one new request id, for the account of a `login` operation -/
+theorem step_nextId (s : State) (op : Op) (u : Nat) :
+    ((step s op).1.accts u).nextId = (s.accts u).nextId + stepIssues u op := by
+  cases op with
+  | login v f n k =>
+    simp only [step, stepIssues, setAcct]
+    by_cases hx : u = v
+    · subst hx; simp [loginOp, reqLogin_nextId]
+    · have : ¬ v = u := fun e => hx e.symm
+      simp [upd_other _ _ _ _ hx, this]
+  | closed v pick =>
+    simp only [step, stepIssues, Nat.add_zero]
+    rw [fire_nextId, setAcct_nextId _ _ _ _ (closedOp_ti ..).2.1]
+  | logined v lg pick =>
+    simp only [step, stepIssues, Nat.add_zero]
+    rw [fire_nextId, setAcct_nextId _ _ _ _ (loginedOp_ti ..).2.1]
+  | reonline v => simp only [step, stepIssues, Nat.add_zero]; exact setAcct_nextId _ _ _ _ (reonlineOp_ti ..).2.1
+  | logoutReq v => simp only [step, stepIssues, Nat.add_zero]; exact setAcct_nextId _ _ _ _ (logoutReqOp_ti ..).2.1
+  | logoutDone v => simp only [step, stepIssues, Nat.add_zero]; exact setAcct_nextId _ _ _ _ (logoutDoneOp_ti ..).2.1
+  | abnormal v => simp only [step, stepIssues, Nat.add_zero]; exact setAcct_nextId _ _ _ _ (abnormalOp_ti ..).2.1
+  | swBegin v => simp only [step, stepIssues, Nat.add_zero]; exact setAcct_nextId _ _ _ _ (swBeginOp_ti ..).2.1
+  | swEnd v => simp only [step, stepIssues, Nat.add_zero]; exact setAcct_nextId _ _ _ _ (swEndOp_ti ..).2.1
+  | offReply v pick =>
+    simp only [step, stepIssues, Nat.add_zero]
+    split
+    · rfl
+    · rw [fire_nextId]; exact setAcct_nextId _ _ _ _ rfl
+  | tick => simp only [step, stepIssues, Nat.add_zero]; exact (tickAcct_ti ..).2.1
+  | adv ms => rfl
+  | advT ms =>
+    simp only [step, stepIssues, Nat.add_zero]
+    generalize firings s.now (s.now + ms) = ts
+    generalize s.accts u = a
+    induction ts generalizing a with
+    | nil => rfl
+    | cons t ts ih => simp only [List.foldl_cons]; rw [ih]; exact (tickAcct_ti ..).2.1
+
+/-! ### the 1 s timer of `PlayerMgr.Start` (`Op.advT`) -/
+
+theorem firings_bounds (a b t : Nat) (h : t ∈ firings a b) : a < t ∧ t ≤ b := by
+  unfold firings TimerPeriod at h
+  simp only [List.mem_map, List.mem_range] at h
+  obtain ⟨i, hi, rfl⟩ := h
+  omega
+
+theorem firings_ne_nil (a b : Nat) (h : a + TimerPeriod ≤ b) : firings a b ≠ [] := by
+  unfold firings TimerPeriod at *
+  intro e
+  have : (List.range (b / 1000 - a / 1000)).length = 0 := by
+    have := congrArg List.length e; simpa using this
+  simp at this
+  omega
+
+theorem ticks_none (ts : List Nat) (a : Acct) (h : a.player = none) :
+    (ts.foldl (fun a t => tickAcct t a) a).player = none := by
+  induction ts generalizing a with
+  | nil => exact h
+  | cons t ts ih =>
+    simp only [List.foldl_cons]
+    apply ih
+    unfold tickAcct; simp [h]
+
+/-- a record whose state time limit has passed is removed by the first firing -/
+theorem ticks_remove_timedOut (ts : List Nat) (a : Acct) (p : Player) (hp : a.player = some p)
+    (hst : p.state = .logining ∨ p.state = .logouting) (h0 : 0 < p.stTimeout)
+    (hne : ts ≠ []) (hall : ∀ t ∈ ts, p.stTimeout ≤ t) :
+    (ts.foldl (fun a t => tickAcct t a) a).player = none := by
+  cases ts with
+  | nil => exact absurd rfl hne
+  | cons t ts =>
+    simp only [List.foldl_cons]
+    apply ticks_none
+    have ht := hall t (List.mem_cons_self ..)
+    unfold tickAcct
+    rcases hst with hst | hst <;> simp [hp, hst, h0, ht]
+
+/-- with the timer running, a record past its state time limit is gone after any advance of at least one period -/
+theorem advT_removes (s : State) (u ms : Nat) (p : Player) (hp : (s.accts u).player = some p)
+    (hst : p.state = .logining ∨ p.state = .logouting) (h0 : 0 < p.stTimeout) (hexp : p.stTimeout ≤ s.now)
+    (hms : TimerPeriod ≤ ms) : ((step s (.advT ms)).1.accts u).player = none := by
+  simp only [step]
+  refine ticks_remove_timedOut _ _ p hp hst h0 (firings_ne_nil _ _ (by omega)) ?_
+  intro t ht
+  have := (firings_bounds _ _ _ ht).1
+  omega
 
 /-! ### the monitor's `answered` list is the list of acknowledged request ids (monitor-only facts) -/
 
@@ -724,7 +1123,7 @@ theorem monStep_answered (m : Mon) (st : Step) (u : Nat) :
       simp [upd_other _ _ _ _ hx, this]
   cases op <;> simp only [monStep, Op.uid] <;> first
     | exact key _ rfl
-    | simp [tickLedger_answered]
+    | simp [tickLedger_answered, ticksLedger_answered]
 
 theorem nodup_of_reverse {l : List Nat} (h : l.reverse.Nodup) : l.Nodup := by
   unfold List.Nodup at *
